@@ -250,7 +250,10 @@ def run_property(prop_id, spec, tier, seed=0, only_unit=None, keep=False, verbos
     known = load_known()
     native = Native(scratch)
     for old in glob.glob(os.path.join(VERIF, 'replay', prop_id + '-*.json')):
-        os.remove(old)
+        try:
+            os.remove(old)
+        except OSError:
+            pass            # a concurrent run of the same property removed it first
     try:
         units = [u for u in spec['units'] if tier in u.get('tiers', ('quick', 'thorough'))]
         if only_unit:
